@@ -22,6 +22,7 @@ type Spec struct {
 	Pkg       string            `json:"pkg"`
 	Harness   []string          `json:"harness"`
 	Replace   map[string]string `json:"replace"` // source overlays (dst path -> src path), for experiments
+	Aux       map[string][]string `json:"aux"`   // auxiliary harness files overlaid into other pint packages (pkg pattern -> files)
 	IntMode   bool              `json:"intmode"`
 	Solver    string            `json:"solver"`
 	TimeoutMs int               `json:"timeout_ms"` // per solver query
@@ -181,6 +182,7 @@ func main() {
 	known := flag.String("known", "", "comma separated open known-finding signature names")
 	hashes := flag.Bool("hashes", true, "include source hashes of executed pint functions")
 	mkReplay := flag.String("mkreplay", "", "instead of running: write native replay overlay files into this directory and print overlay JSON")
+	auxFlag := flag.String("aux", "", "auxiliary harness files in other packages: pkg=file+file;pkg=file")
 	selftest := flag.Bool("selftest", false, "check the solver plumbing and exit")
 	cpuprof := flag.String("cpuprofile", "", "write a CPU profile")
 	flag.Parse()
@@ -192,9 +194,18 @@ func main() {
 	if *selftest {
 		os.Exit(selfTest())
 	}
+	aux := map[string][]string{}
+	if *auxFlag != "" {
+		for _, kv := range strings.Split(*auxFlag, ";") {
+			p := strings.SplitN(kv, "=", 2)
+			if len(p) == 2 {
+				aux[p[0]] = strings.Split(p[1], "+")
+			}
+		}
+	}
 	if *mkReplay != "" {
 		hs := strings.Split(*harness, ",")
-		ov, notApplied, err := MakeReplayOverlay(*repo, *pkg, hs, *mkReplay)
+		ov, notApplied, err := MakeReplayOverlay(*repo, *pkg, hs, *mkReplay, aux)
 		if err != nil {
 			fmt.Fprintln(os.Stderr, "mkreplay:", err)
 			os.Exit(2)
@@ -218,7 +229,7 @@ func main() {
 			os.Exit(2)
 		}
 	} else {
-		spec = Spec{Repo: *repo, Pkg: *pkg, Harness: strings.Split(*harness, ","), IntMode: *intmode, Solver: *solver, Workers: *workers, Replace: map[string]string{}}
+		spec = Spec{Repo: *repo, Pkg: *pkg, Harness: strings.Split(*harness, ","), IntMode: *intmode, Solver: *solver, Workers: *workers, Replace: map[string]string{}, Aux: aux}
 		if *repl != "" {
 			for _, kv := range strings.Split(*repl, ",") {
 				p := strings.SplitN(kv, "=", 2)
@@ -250,7 +261,7 @@ func main() {
 	}
 
 	t0 := time.Now()
-	l, err := Load(spec.Repo, spec.Pkg, spec.Harness, spec.Replace)
+	l, err := Load(spec.Repo, spec.Pkg, spec.Harness, spec.Replace, spec.Aux)
 	if err != nil {
 		fmt.Fprintln(os.Stderr, "load:", err)
 		os.Exit(2)
